@@ -9,6 +9,8 @@ import (
 	"encoding/json"
 	"fmt"
 	"math"
+	"math/big"
+	"os"
 	"sort"
 
 	"verif/harness/hx"
@@ -22,9 +24,64 @@ type meshDesc struct {
 	Idx     []int        `json:"idx"`
 	Pos     [][3]float64 `json:"pos"`     // nil: no Position attribute
 	Normals [][3]float64 `json:"normals"` // nil: no Normal attribute
+	Via     string       `json:"via,omitempty"` // "file": through stl.Save / stl.Load on a file instead of a buffer
 }
 type bytesDesc struct {
 	Hex string `json:"hex"`
+	readerSpec
+}
+
+// exactNormals renders the vertex normals as integer triples over a common power-of-two scale (which cancels in
+// the normalisation) when that is possible with integers below 2^50: then the float64 sum of three of them is exact
+// and Check/C07.v decides "stored word = float32 nearest to s_k/|s|" in integer arithmetic.  Otherwise "None" (the
+// 1e-6 tolerance oracle below is all there is).
+func exactNormals(ns [][3]float64) string {
+	if ns == nil {
+		return "None"
+	}
+	type me struct {
+		m int64
+		e int
+	}
+	dec := make([][3]me, len(ns))
+	emin, any := 0, false
+	for i, n := range ns {
+		for k, x := range n {
+			if math.IsNaN(x) || math.IsInf(x, 0) {
+				return "None"
+			}
+			if x == 0 {
+				continue
+			}
+			fr, ex := math.Frexp(x)
+			m := int64(fr * (1 << 53))
+			e := ex - 53
+			for m%2 == 0 {
+				m /= 2
+				e++
+			}
+			dec[i][k] = me{m, e}
+			if !any || e < emin {
+				emin, any = e, true
+			}
+		}
+	}
+	items := make([]string, len(ns))
+	for i := range ns {
+		var t [3]string
+		for k := 0; k < 3; k++ {
+			v := big.NewInt(dec[i][k].m)
+			if dec[i][k].m != 0 {
+				v.Lsh(v, uint(dec[i][k].e-emin))
+			}
+			if v.BitLen() > 50 {
+				return "None"
+			}
+			t[k] = v.String()
+		}
+		items[i] = "(" + t[0] + "," + t[1] + "," + t[2] + ")%Z"
+	}
+	return "(Some [" + join(items) + "])"
 }
 
 func f32bits(x float64) uint32  { return math.Float32bits(float32(x)) }
@@ -66,7 +123,7 @@ func genFloat(r *hx.Rng) float64 {
 	}
 }
 
-func genMesh(r *hx.Rng) (meshDesc, string) {
+func genMesh(r *hx.Rng) (meshDesc, string, string) {
 	var d meshDesc
 	nv := r.Range(0, 12)
 	nt := r.Range(0, 10)
@@ -114,22 +171,74 @@ func genMesh(r *hx.Rng) (meshDesc, string) {
 			d.Pos[i] = [3]float64{genFloat(r), genFloat(r), genFloat(r)}
 		}
 	}
+	nmode := "none"
 	if r.Chance(1, 2) && d.Pos != nil {
-		d.Normals = make([][3]float64, nv)
-		for i := range d.Normals {
-			// keep every normal in the half space z>0 so the mean never cancels to zero
-			d.Normals[i] = [3]float64{r.Float()*2 - 1, r.Float()*2 - 1, 0.25 + r.Float()}
+		d.Normals, nmode = genNormals(r, nv)
+	}
+	if r.Chance(1, 8) {
+		d.Via = "file"
+	}
+	return d, shape, nmode
+}
+
+// genNormals: vertex normals, every one in the half space z > 0 so the mean of three never cancels.  All modes but
+// "float" produce values that are small integers times a power of two, so that the exact oracle applies.
+func genNormals(r *hx.Rng, nv int) ([][3]float64, string) {
+	ns := make([][3]float64, nv)
+	q := func(x float64, bits int) float64 { return math.Round(math.Ldexp(x, bits)) / math.Ldexp(1, bits) }
+	unit := func() [3]float64 {
+		v := [3]float64{r.Float()*2 - 1, r.Float()*2 - 1, 0.3 + r.Float()}
+		l := math.Sqrt(v[0]*v[0] + v[1]*v[1] + v[2]*v[2])
+		return [3]float64{v[0] / l, v[1] / l, v[2] / l}
+	}
+	mode := []string{"grid", "grid", "unit-quantised", "unit-quantised", "unit-flat", "small-int", "scaled", "float", "axis"}[r.Intn(9)]
+	switch mode {
+	case "grid":
+		// arbitrary length, 2^-16 grid; a quarter of them far from unit length: normalisation must happen
+		for i := range ns {
+			s := 1.0
 			if r.Chance(1, 4) {
-				// far from unit length: normalisation must happen
-				s := []float64{0.01, 3, 250}[r.Intn(3)]
-				for k := range d.Normals[i] {
-					d.Normals[i][k] *= s
-				}
+				s = []float64{1.0 / 128, 3, 250}[r.Intn(3)]
 			}
+			ns[i] = [3]float64{s * q(r.Float()*2-1, 16), s * q(r.Float()*2-1, 16), s * q(0.25+r.Float(), 16)}
+		}
+	case "unit-quantised":
+		// what real meshes carry: unit normals up to a quantisation error (2^-18 ... 2^-30)
+		bits := []int{18, 22, 26, 30}[r.Intn(4)]
+		for i := range ns {
+			u := unit()
+			ns[i] = [3]float64{q(u[0], bits), q(u[1], bits), q(u[2], bits)}
+		}
+	case "unit-flat":
+		// flat shading: every vertex the same nearly-unit normal (the mean of three is that normal again)
+		bits := []int{18, 22, 26}[r.Intn(3)]
+		u := unit()
+		for i := range ns {
+			ns[i] = [3]float64{q(u[0], bits), q(u[1], bits), q(u[2], bits)}
+		}
+	case "small-int":
+		for i := range ns {
+			ns[i] = [3]float64{float64(r.Range(-5, 5)), float64(r.Range(-5, 5)), float64(r.Range(1, 5))}
+		}
+	case "scaled":
+		// the same direction at a very large or very small common scale
+		e := []int{-60, -40, -20, 20, 40, 60}[r.Intn(6)]
+		for i := range ns {
+			ns[i] = [3]float64{math.Ldexp(float64(r.Range(-999, 999)), e), math.Ldexp(float64(r.Range(-999, 999)), e), math.Ldexp(float64(r.Range(1, 999)), e)}
+		}
+	case "axis":
+		// exactly unit, axis aligned or with zero components (and a negative zero)
+		for i := range ns {
+			ns[i] = [][3]float64{{0, 0, 1}, {0, 0, 2}, {1, 0, 1}, {0, -1, 1}, {math.Copysign(0, -1), 0, 0.5}}[r.Intn(5)]
+		}
+	default:
+		for i := range ns {
+			ns[i] = [3]float64{r.Float()*2 - 1, r.Float()*2 - 1, 0.25 + r.Float()}
 		}
 	}
-	return d, shape
+	return ns, mode
 }
+
 
 // shapeDescs enumerates small meshes by the *shape* of their index buffer relative to the vertex count: every
 // coincidence a writer could key a shortcut on (as many indices as vertices, three times as many, as many vertices
@@ -236,6 +345,12 @@ func isZeroWord(w uint32) bool { return w == 0 || w == 0x80000000 }
 // readMeshCoq renders what stl.ReadMesh returned as a Check.C07 rmesh; flat normals are checked here
 // (float arithmetic) and rendered as Flat.
 func readMeshCoq(data []byte) (string, string) {
+	return readMeshCoqFrom(data, func() (*modeling.Mesh, error) { return stl.ReadMesh(bytes.NewReader(data)) })
+}
+
+// readMeshCoqFrom: data = the bytes the mesh was read from (for the independent look at the stored normals),
+// load = the call of the implementation (stl.ReadMesh on some reader, or stl.Load).
+func readMeshCoqFrom(data []byte, load func() (*modeling.Mesh, error)) (string, string) {
 	fail := ""
 	var m *modeling.Mesh
 	var err error
@@ -245,7 +360,7 @@ func readMeshCoq(data []byte) (string, string) {
 				err = fmt.Errorf("panic: %v", rec)
 			}
 		}()
-		m, err = stl.ReadMesh(bytes.NewReader(data))
+		m, err = load()
 	}()
 	if err != nil {
 		return "None", fail
@@ -309,13 +424,24 @@ func meshCase(d meshDesc) hx.Case {
 	m := buildMesh(d)
 	var buf bytes.Buffer
 	var werr error
+	savePath := ""
 	func() {
 		defer func() {
 			if rec := recover(); rec != nil {
 				werr = fmt.Errorf("panic: %v", rec)
 			}
 		}()
-		werr = stl.WriteMesh(&buf, m)
+		if d.Via == "file" {
+			savePath = tmpFile("mesh.stl")
+			os.Remove(savePath)
+			if werr = stl.Save(savePath, m); werr == nil {
+				var b []byte
+				b, werr = os.ReadFile(savePath)
+				buf.Write(b)
+			}
+		} else {
+			werr = stl.WriteMesh(&buf, m)
+		}
 	}()
 	out := buf.Bytes()
 	if werr != nil {
@@ -362,13 +488,18 @@ func meshCase(d meshDesc) hx.Case {
 		}
 		pos = "(Some " + vecsCoq(pw) + ")"
 	}
-	rm, fail := readMeshCoq(out)
+	var rm, fail string
+	if savePath != "" && werr == nil {
+		rm, fail = readMeshCoqFrom(out, func() (*modeling.Mesh, error) { return stl.Load(savePath) })
+	} else {
+		rm, fail = readMeshCoq(out)
+	}
 	if fail != "" && c.GoFail == "" {
 		c.GoFail, c.FailKey = fail, "stl:read-normal-value"
 	}
-	c.Coq = fmt.Sprintf("CMesh %s %s %s %s %s", hx.CoqListNat(d.Idx), pos, vecsCoq(fns), hx.CoqListN(out), rm)
+	c.Coq = fmt.Sprintf("CMesh %s %s %s %s %s %s", hx.CoqListNat(d.Idx), pos, exactNormals(d.Normals), vecsCoq(fns), hx.CoqListN(out), rm)
 	c.Nontriv = nt >= 1
-	c.Key = fmt.Sprintf("m|%v|%v|%v", d.Idx, d.Pos, d.Normals)
+	c.Key = fmt.Sprintf("m|%v|%v|%v|%s", d.Idx, d.Pos, d.Normals, d.Via)
 	return c
 }
 
@@ -458,10 +589,22 @@ func genBytes(r *hx.Rng) []byte {
 			}
 			binary.LittleEndian.PutUint32(b[off+4*k:], w)
 		}
-		if r.Chance(1, 2) {
+		switch r.Intn(6) {
+		case 0, 1, 2:
 			// force an all-zero normal (flat-normal path)
 			for k := 0; k < 12; k++ {
 				b[off+k] = 0
+			}
+		case 3:
+			// stored normals a sloppy "is it zero?" test gets wrong: components that cancel, tiny and subnormal
+			// lengths, mixed +-0 (that IS zero), a NaN / an infinity among zeros, huge components
+			f := func(x float32) uint32 { return math.Float32bits(x) }
+			pool := [][3]uint32{{f(1), f(-1), 0}, {f(-2), f(1), f(1)}, {f(1e-20), 0, 0}, {0, 1, 0}, {0, 0, 0x80000001}, {0x80000000, 0, 0x80000000},
+				{0, 0x80000000, 0}, {0x7FC00000, 0, 0}, {0, 0x7F800000, 0}, {f(3e38), f(3e38), f(-3e38)}, {0, f(1e-30), f(-1e-30)}, {f(0.5), f(0.5), f(-1)},
+				{0, 0, f(1e-10)}, {0x00800000, 0, 0}}
+			nv := pool[r.Intn(len(pool))]
+			for k := 0; k < 3; k++ {
+				binary.LittleEndian.PutUint32(b[off+4*k:], nv[k])
 			}
 		}
 		binary.LittleEndian.PutUint16(b[off+48:], uint16(r.Intn(65536)))
@@ -469,31 +612,60 @@ func genBytes(r *hx.Rng) []byte {
 	return b
 }
 
-func bytesCase(in []byte) hx.Case {
-	c := hx.Case{Kind: "bytes", Desc: bytesDesc{Hex: hex.EncodeToString(in)}}
+func bytesCase(in []byte) hx.Case { return bytesCaseVia(in, readerSpec{}) }
+
+// bytesCaseVia: stl.Read through the reader of the spec, then stl.Write.  The case is judged on the effective input:
+// the whole byte string, or the prefix a failing reader delivered before its error.
+func bytesCaseVia(in []byte, rs readerSpec) hx.Case {
+	c := hx.Case{Kind: "bytes", Desc: bytesDesc{Hex: hex.EncodeToString(in), readerSpec: rs}}
 	out := "None"
-	bin, err := stl.Read(bytes.NewReader(in))
+	rd, delivered, done, _ := openReader(rs, in)
+	var bin *stl.Binary
+	var err error
+	func() {
+		defer func() {
+			if rec := recover(); rec != nil {
+				err = fmt.Errorf("panic: %v", rec)
+			}
+		}()
+		bin, err = stl.Read(rd)
+	}()
+	done()
+	eff := effectiveInput(rs, in, delivered())
 	if err == nil {
 		var buf bytes.Buffer
 		if err := stl.Write(&buf, *bin); err == nil {
 			out = "(Some " + hx.CoqListN(buf.Bytes()) + ")"
 		}
 	}
-	c.Coq = fmt.Sprintf("CBytes %s %s", hx.CoqListN(in), out)
+	c.Coq = fmt.Sprintf("CBytes %s %s", hx.CoqListN(eff), out)
 	c.Nontriv = len(in) > 84
-	c.Key = "b|" + hex.EncodeToString(in)
+	c.Key = "b|" + hex.EncodeToString(in) + rs.key()
 	return c
 }
 
-func readCase(in []byte) hx.Case {
-	c := hx.Case{Kind: "readmesh", Desc: bytesDesc{Hex: hex.EncodeToString(in)}}
-	rm, fail := readMeshCoq(in)
+func readCase(in []byte) hx.Case { return readCaseVia(in, readerSpec{}) }
+
+// readCaseVia: stl.ReadMesh through the reader of the spec (kind "file": stl.Load on the file).
+func readCaseVia(in []byte, rs readerSpec) hx.Case {
+	c := hx.Case{Kind: "readmesh", Desc: bytesDesc{Hex: hex.EncodeToString(in), readerSpec: rs}}
+	rd, delivered, done, path := openReader(rs, in)
+	load := func() (*modeling.Mesh, error) { return stl.ReadMesh(rd) }
+	if path != "" {
+		load = func() (*modeling.Mesh, error) { return stl.Load(path) }
+	}
+	rm, fail := readMeshCoqFrom(in, load)
+	done()
+	eff := in
+	if path == "" {
+		eff = effectiveInput(rs, in, delivered())
+	}
 	if fail != "" {
 		c.GoFail, c.FailKey = fail, "stl:read-normal-value"
 	}
-	c.Coq = fmt.Sprintf("CRead %s %s", hx.CoqListN(in), rm)
+	c.Coq = fmt.Sprintf("CRead %s %s", hx.CoqListN(eff), rm)
 	c.Nontriv = len(in) > 84
-	c.Key = "r|" + hex.EncodeToString(in)
+	c.Key = "r|" + hex.EncodeToString(in) + rs.key()
 	return c
 }
 
@@ -539,6 +711,7 @@ type bigFileDesc struct {
 	Extra int    `json:"trailing_bytes"`
 	Cut   int    `json:"cut_bytes"`
 	Note  string `json:"note"`
+	readerSpec
 }
 
 // synthFile: independent encoder of the synthetic file (header, count, 50-byte records, trailing bytes).
@@ -575,6 +748,10 @@ func synthFile(d bigFileDesc) []byte {
 
 // bigMeshObs: what stl.ReadMesh returned, as a Check.C07 bigmesh (counts + fingerprints).
 func bigMeshObs(data []byte) (string, string) {
+	return bigMeshObsFrom(func() (*modeling.Mesh, error) { return stl.ReadMesh(bytes.NewReader(data)) })
+}
+
+func bigMeshObsFrom(load func() (*modeling.Mesh, error)) (string, string) {
 	var m *modeling.Mesh
 	var err error
 	func() {
@@ -583,7 +760,7 @@ func bigMeshObs(data []byte) (string, string) {
 				err = fmt.Errorf("panic: %v", rec)
 			}
 		}()
-		m, err = stl.ReadMesh(bytes.NewReader(data))
+		m, err = load()
 	}()
 	if err != nil {
 		return "None", ""
@@ -629,14 +806,21 @@ func bigFileCase(d bigFileDesc) hx.Case {
 	rd, wr := "None", "None"
 	var bin *stl.Binary
 	var err error
+	rdr, delivered, done, _ := openReader(d.readerSpec, in)
 	func() {
 		defer func() {
 			if rec := recover(); rec != nil {
 				err = fmt.Errorf("panic: %v", rec)
 			}
 		}()
-		bin, err = stl.Read(bytes.NewReader(in))
+		bin, err = stl.Read(rdr)
 	}()
+	done()
+	// a failing reader: the effective input is the prefix it delivered (a cut file)
+	cut := d.Cut
+	if eff := effectiveInput(d.readerSpec, in, delivered()); len(eff) < len(in) {
+		cut += len(in) - len(eff)
+	}
 	if err == nil {
 		var f fpState
 		f.bytes(bin.Header[:])
@@ -654,13 +838,19 @@ func bigFileCase(d bigFileDesc) hx.Case {
 			wr = fmt.Sprintf("(Some (%d, %s))", buf.Len(), fpBytes(buf.Bytes()).coq())
 		}
 	}
-	rm, fail := bigMeshObs(in)
+	rdr2, _, done2, path := openReader(d.readerSpec, in)
+	load := func() (*modeling.Mesh, error) { return stl.ReadMesh(rdr2) }
+	if path != "" {
+		load = func() (*modeling.Mesh, error) { return stl.Load(path) }
+	}
+	rm, fail := bigMeshObsFrom(load)
+	done2()
 	if fail != "" {
 		c.GoFail, c.FailKey = fail, "stl:read-float32"
 	}
-	c.Coq = fmt.Sprintf("CBigFile %d %d %s %d %d %s %s %s %s", d.N, d.Seed, hx.CoqBool(d.ZN), d.Extra, d.Cut, inFp.coq(), rd, wr, rm)
+	c.Coq = fmt.Sprintf("CBigFile %d %d %s %d %d %s %s %s %s", d.N, d.Seed, hx.CoqBool(d.ZN), d.Extra, cut, inFp.coq(), rd, wr, rm)
 	c.Nontriv = d.N >= 1
-	c.Key = fmt.Sprintf("bf|%d|%d|%v|%d|%d", d.N, d.Seed, d.ZN, d.Extra, d.Cut)
+	c.Key = fmt.Sprintf("bf|%d|%d|%v|%d|%d%s", d.N, d.Seed, d.ZN, d.Extra, d.Cut, d.readerSpec.key())
 	return c
 }
 
@@ -672,8 +862,21 @@ type bigMeshDesc struct {
 	C    int    `json:"c"`
 	Part int    `json:"part"` // 0..2 further indices after the last whole triangle
 	Seed uint64 `json:"seed"`
-	NDir int    `json:"ndir"` // -1: no Normal attribute; 0..5: every vertex normal is +x,-x,+y,-y,+z,-z times 2^(seed mod 3)
+	NDir int    `json:"ndir"` // -1: no Normal attribute; 0..5: vertex normals along +x,-x,+y,-y,+z,-z: vnum(v) * 2^(seed mod 3)
 	Note string `json:"note"`
+	Via  string `json:"via,omitempty"` // "file": stl.Save / stl.Load
+}
+
+// vnum mirrors Check/C07.v vnum: signed odd magnitude of the normal of vertex v (the sum of three odd numbers is
+// never zero, so every facet normal is exactly + or - the axis and changes from triangle to triangle).
+func vnum(seed uint64, v int) float64 {
+	uv := uint64(v)
+	mag := float64(2*((uv/3+seed)&3) + 1)
+	h := uv%7 + 2*(uv%11) + uv/1000 + seed
+	if h&1 == 0 {
+		return mag
+	}
+	return -mag
 }
 
 func bigMeshCase(d bigMeshDesc) hx.Case {
@@ -693,29 +896,44 @@ func bigMeshCase(d bigMeshDesc) hx.Case {
 		if d.NDir%2 == 1 {
 			s = -s
 		}
-		var a [3]float64
-		a[d.NDir/2] = s
 		nr := make([]vector3.Float64, d.NV)
 		for v := range nr {
-			nr[v] = vector3.New(a[0], a[1], a[2])
+			var b [3]float64 // the other two components stay +0 (0 * negative would be -0)
+			b[d.NDir/2] = s * vnum(d.Seed, v)
+			nr[v] = vector3.New(b[0], b[1], b[2])
 		}
 		m = m.SetFloat3Attribute(modeling.NormalAttribute, nr)
 	}
 	var buf bytes.Buffer
 	var werr error
+	savePath := ""
 	func() {
 		defer func() {
 			if rec := recover(); rec != nil {
 				werr = fmt.Errorf("panic: %v", rec)
 			}
 		}()
-		werr = stl.WriteMesh(&buf, m)
+		if d.Via == "file" {
+			savePath = tmpFile("bigmesh.stl")
+			os.Remove(savePath)
+			if werr = stl.Save(savePath, m); werr == nil {
+				var b []byte
+				b, werr = os.ReadFile(savePath)
+				buf.Write(b)
+			}
+		} else {
+			werr = stl.WriteMesh(&buf, m)
+		}
 	}()
 	wr, rm := "None", "None"
 	if werr == nil {
 		wr = fmt.Sprintf("(Some (%d, %s))", buf.Len(), fpBytes(buf.Bytes()).coq())
 		var fail string
-		rm, fail = bigMeshObs(buf.Bytes())
+		if savePath != "" {
+			rm, fail = bigMeshObsFrom(func() (*modeling.Mesh, error) { return stl.Load(savePath) })
+		} else {
+			rm, fail = bigMeshObs(buf.Bytes())
+		}
 		if fail != "" {
 			c.GoFail, c.FailKey = fail, "stl:read-float32"
 		}
@@ -726,7 +944,7 @@ func bigMeshCase(d bigMeshDesc) hx.Case {
 	}
 	c.Coq = fmt.Sprintf("CBigMesh %d %d %d %d %d %d %d %s %s %s", d.N, d.NV, d.A, d.B, d.C, d.Part, d.Seed, nd, wr, rm)
 	c.Nontriv = d.N >= 1
-	c.Key = fmt.Sprintf("bm|%d|%d|%d|%d|%d|%d|%d|%d", d.N, d.NV, d.A, d.B, d.C, d.Part, d.Seed, d.NDir)
+	c.Key = fmt.Sprintf("bm|%d|%d|%d|%d|%d|%d|%d|%d|%s", d.N, d.NV, d.A, d.B, d.C, d.Part, d.Seed, d.NDir, d.Via)
 	return c
 }
 
@@ -857,6 +1075,7 @@ func bucket(n int) string {
 }
 
 func main() {
+	defer cleanupTmp()
 	run := hx.ParseFlags("C07", "Check.C07")
 	for _, in := range run.Inputs() {
 		switch in.Kind {
@@ -869,10 +1088,14 @@ func main() {
 			json.Unmarshal(in.Raw, &bd)
 			b, _ := hex.DecodeString(bd.Hex)
 			if in.Kind == "readmesh" {
-				run.Add(readCase(b))
+				run.Add(readCaseVia(b, bd.readerSpec))
 			} else {
-				run.Add(bytesCase(b))
+				run.Add(bytesCaseVia(b, bd.readerSpec))
 			}
+		case "writefail":
+			var d writeFailDesc
+			json.Unmarshal(in.Raw, &d)
+			run.Add(writeFailCase(d))
 		case "bigfile":
 			var d bigFileDesc
 			json.Unmarshal(in.Raw, &d)
@@ -927,13 +1150,24 @@ func main() {
 		}
 		small = append(small, meshCase(d))
 	}
+	for i, d := range shapeDescs() {
+		if i%7 == 3 { // the same shapes through stl.Save / stl.Load on a file
+			d.Via = "file"
+			run.Count("shape-stream:via-save-load")
+			small = append(small, meshCase(d))
+		}
+	}
 	for i := 0; i < run.N; i++ {
 		switch i % 4 {
 		case 0, 1:
-			d, shape := genMesh(r)
+			d, shape, nmode := genMesh(r)
 			c := meshCase(d)
 			if d.Normals != nil {
 				run.Count("mesh:with-normals")
+				run.Count("mesh:normals=" + nmode)
+			}
+			if d.Via != "" {
+				run.Count("mesh:via-save-load")
 			}
 			if d.Pos == nil {
 				run.Count("mesh:no-position")
@@ -955,7 +1189,9 @@ func main() {
 					run.Count("bytes:truncated")
 				}
 			}
-			small = append(small, bytesCase(b))
+			rs := pickReader(r, len(b))
+			run.Count("bytes:reader=" + rs.Kind)
+			small = append(small, bytesCaseVia(b, rs))
 		case 3:
 			b := genBytes(r)
 			switch r.Intn(10) {
@@ -970,12 +1206,15 @@ func main() {
 				}
 				run.Count("readmesh:trailing")
 			}
-			small = append(small, readCase(b))
+			rs := pickReader(r, len(b))
+			run.Count("readmesh:reader=" + rs.Kind)
+			small = append(small, readCaseVia(b, rs))
 		}
 	}
 	// spread the large (expensive to evaluate) cases evenly over the run: hx cuts the case list into
 	// consecutive shards, one coqc each
 	big := bigCases(run, r)
+	big = append(big, ioCases(run, r)...)
 	every := len(small)/len(big) + 1
 	bi := 0
 	for i, c := range small {
